@@ -196,6 +196,11 @@ def run(ctx):
                         if ran:
                             apply_ref(d, op, env.setlike)
                     refs[i] = d
+                # a transaction that leaves its own tree in the shape of finding F16 (a non-root node holding one
+                # never-stored leaf: C04 / C06) stores an unsound tree all by itself; that is F16, not a protocol outcome
+                if any(f16_condition(env, trees[i]) for i in (1, 2)):
+                    outcomes["skipped-transaction-in-F16-shape"] = outcomes.get("skipped-transaction-in-F16-shape", 0) + 1
+                    continue
                 # ---- correspondence with Model/Concurrent.v: both transactions leaf-local?
                 local = {}
                 for i in (1, 2):
